@@ -284,15 +284,9 @@ Definition spec (sites : list (bytes * N)) (extra_fallbacks : list bytes)
       end
   end.
 
-(* ---- case ---- *)
 (* obs_trace: the ids of the sites whose marker middleware ran, in order (so both WHICH site ran
    and HOW MANY handlers ran are observed); obs_prefix: the "path_prefix" context value the
    chain saw; obs_path: the URL path the chain saw (after trimPathPrefix) *)
-Inductive case :=
-| CRoute (sites : list (bytes * N)) (extra_fallbacks : list bytes) (host_header url_path : bytes)
-         (proto : N) (simple : bool)
-         (obs_trace : list N) (obs_status : N) (obs_prefix obs_path : bytes).
-
 Definition keys_distinct (sites : list (bytes * N)) : bool :=
   let ks := map (fun s => split_host_path (fst s)) sites in
   let fix nd (l : list (bytes * bytes)) : bool :=
@@ -308,11 +302,13 @@ Definition routed_eqb (a b : routed) : bool :=
   | _, _ => false
   end.
 
-Definition judge (c : case) : N :=
-  match c with
-  | CRoute sites xf hh up proto simple otrace ost oprefix opath =>
+(* one observed request judged against the model's routing outcome [r] for the listener whose
+   declared sites are [sites] and whose designated fallback hosts are [xf]: (agree, spec_ok).
+   The executable spec looks at [sites]/[xf] of THAT listener only. *)
+Definition judge_route (sites : list (bytes * N)) (xf : list bytes) (hh up : bytes) (proto : N)
+           (simple : bool) (otrace : list N) (ost : N) (oprefix opath : bytes) (r : routed)
+  : bool * bool :=
       (* the model that runs is the real trie: Insert each site, then serveHTTP's Match *)
-      let r := tserve (tbuild sites) xf hh up proto in
       let agree :=
         list_beq N.eqb otrace (handlers_run r) &&
         match r with
@@ -360,5 +356,112 @@ Definition judge (c : case) : N :=
             | Some k => forallb (fun e => negb (beq (e_host e) k && has_prefix path (e_path e))) t
             end
         end in
-      verdict agree (spec1 && spec2)
+      (agree, spec1 && spec2).
+
+(* ================= several listeners in one process ================= *)
+(* NewServer: s.vhosts = newVHostTrie(); s.vhosts.fallbackHosts = append(s.vhosts.fallbackHosts,
+   getFallbacks(group)...); then one Insert per site. The fallback list is a Go slice, so what a
+   later append does to an earlier listener's list depends on who shares a backing array with
+   whom. Slices are modelled as (array, len, cap) over a heap of arrays: a composite literal
+   allocates a fresh array with len = cap; append writes in place while the capacity lasts and
+   otherwise copies into a fresh array. The list is READ at request time, from the heap as it is
+   after every listener has been created. *)
+Record gslice := { sl_arr : nat; sl_len : nat; sl_cap : nat }.
+Definition heap := list (list bytes).
+
+Fixpoint upd_nth {A} (k : nat) (f : A -> A) (l : list A) : list A :=
+  match l, k with
+  | [], _ => []
+  | x :: r, O => f x :: r
+  | x :: r, S k' => x :: upd_nth k' f r
+  end.
+
+(* []string{...} *)
+Definition lit_slice (hp : heap) (elems : list bytes) : heap * gslice :=
+  (hp ++ [elems], {| sl_arr := length hp; sl_len := length elems; sl_cap := length elems |}).
+(* append(s, xs...) *)
+Definition go_append (hp : heap) (s : gslice) (xs : list bytes) : heap * gslice :=
+  let n := (sl_len s + length xs)%nat in
+  if Nat.leb n (sl_cap s) then
+    (upd_nth (sl_arr s) (fun a => firstn (sl_len s) a ++ xs ++ skipn n a) hp,
+     {| sl_arr := sl_arr s; sl_len := n; sl_cap := sl_cap s |})
+  else
+    let newcap := Nat.max (2 * sl_cap s) n in
+    (hp ++ [firstn (sl_len s) (nth (sl_arr s) hp []) ++ xs ++ repeat [] (newcap - n)],
+     {| sl_arr := length hp; sl_len := n; sl_cap := newcap |}).
+Definition slice_read (hp : heap) (s : gslice) : list bytes :=
+  firstn (sl_len s) (nth (sl_arr s) hp []).
+
+(* a listener's site group: the declared sites and the hosts of its designated fallback sites
+   (getFallbacks(group), declaration order) *)
+Definition group := (list (bytes * N) * list bytes)%type.
+Definition pstate := (heap * list (vtrie * gslice))%type.
+
+Definition new_server (st : pstate) (g : group) : pstate :=
+  let '(hp, srvs) := st in
+  let '(hp1, s1) := lit_slice hp default_fallbacks in      (* newVHostTrie() *)
+  let '(hp2, s2) := go_append hp1 s1 (snd g) in            (* append(fallbackHosts, getFallbacks(group)...) *)
+  (hp2, srvs ++ [(tbuild (fst g), s2)]).
+Definition process (groups : list group) : pstate := fold_left new_server groups ([], []).
+
+(* NOT the code: a variant in which every trie takes one shared slice instead of its own literal
+   (used only to show what the per-trie list rules out, C01_shared_fallback_list_would_leak) *)
+Definition new_server_shared (shared : gslice) (st : pstate) (g : group) : pstate :=
+  let '(hp, srvs) := st in
+  let '(hp2, s2) := go_append hp shared (snd g) in
+  (hp2, srvs ++ [(tbuild (fst g), s2)]).
+
+(* serveHTTP with the complete fallback list *)
+Definition tserve_full (root : vtrie) (fallbacks : list bytes) (host_header url_path : bytes)
+           (proto_major : N) : routed :=
+  let hostname := strip_port host_header in
+  match ttrie_match root fallbacks (hostname ++ url_path) with
+  | Some (s, prefix) => Site s prefix
+  | None => NotFound (if 2 <=? proto_major then 421 else 404)
+  end.
+
+(* a request on listener [i] of a process in state [st] *)
+Definition mserve_st (st : pstate) (i : nat) (hh up : bytes) (proto : N) : option routed :=
+  match nth_error (snd st) i with
+  | Some (root, s) => Some (tserve_full root (slice_read (fst st) s) hh up proto)
+  | None => None
+  end.
+Definition mserve (groups : list group) (i : nat) (hh up : bytes) (proto : N) : option routed :=
+  mserve_st (process groups) i hh up proto.
+
+(* one observed request of a multi-listener case *)
+Record mreq := { mq_srv : N; mq_host : bytes; mq_path : bytes; mq_proto : N; mq_simple : bool;
+                 mq_trace : list N; mq_status : N; mq_prefix : bytes; mq_opath : bytes }.
+
+(* ---- case ---- *)
+Inductive case :=
+| CRoute (sites : list (bytes * N)) (extra_fallbacks : list bytes) (host_header url_path : bytes)
+         (proto : N) (simple : bool)
+         (obs_trace : list N) (obs_status : N) (obs_prefix obs_path : bytes)
+(* listeners created one after the other in one process (site ids unique over the whole
+   process), then requests to any of them *)
+| CMulti (groups : list group) (reqs : list mreq).
+
+Definition judge_mreq (groups : list group) (st : pstate) (q : mreq) : bool * bool :=
+  let i := N.to_nat (mq_srv q) in
+  match nth_error groups i, mserve_st st i (mq_host q) (mq_path q) (mq_proto q) with
+  | Some g, Some r =>
+      (* "else a catch-all or designated fallback site OF THAT LISTENER answers": the spec is
+         evaluated on listener i's own site group, nothing else of the process *)
+      judge_route (fst g) (snd g) (mq_host q) (mq_path q) (mq_proto q) (mq_simple q)
+                  (mq_trace q) (mq_status q) (mq_prefix q) (mq_opath q) r
+  | _, _ => (false, false)
+  end.
+
+Definition judge (c : case) : N :=
+  match c with
+  | CRoute sites xf hh up proto simple otrace ost oprefix opath =>
+      (* the model that runs is the real trie: Insert each site, then serveHTTP's Match *)
+      let '(agree, spec_ok) := judge_route sites xf hh up proto simple otrace ost oprefix opath
+                                           (tserve (tbuild sites) xf hh up proto) in
+      verdict agree spec_ok
+  | CMulti groups reqs =>
+      let st := process groups in
+      let rs := map (judge_mreq groups st) reqs in
+      verdict (forallb fst rs) (forallb snd rs)
   end.
